@@ -14,6 +14,7 @@ import (
 	"net"
 	"sort"
 	"strings"
+	"syscall"
 	"time"
 
 	"verif/ev"
@@ -34,7 +35,36 @@ type c19Cred struct {
 	Valid  bool   // presents a certificate issued by the configured authority
 	CN     string // identity for permission decisions
 	IsPeer bool
-	Dial   func(addr string) (*grpc.ClientConn, error)
+	Dial   func(addr string, localPort int) (*grpc.ClientConn, error)
+}
+
+// c19Dialer connects from the given local port (0 = any). The socket is closed with a reset so that the same source
+// address can be used again at once.
+func c19Dialer(localPort int) grpc.DialOption {
+	return grpc.WithContextDialer(func(ctx context.Context, addr string) (net.Conn, error) {
+		d := &net.Dialer{Control: func(_, _ string, c syscall.RawConn) error {
+			var serr error
+			if err := c.Control(func(fd uintptr) {
+				serr = syscall.SetsockoptInt(int(fd), syscall.SOL_SOCKET, syscall.SO_REUSEADDR, 1)
+			}); err != nil {
+				return err
+			}
+			return serr
+		}}
+		if localPort != 0 {
+			d.LocalAddr = &net.TCPAddr{IP: net.IPv4(127, 0, 0, 1), Port: localPort}
+		}
+		conn, err := d.DialContext(ctx, "tcp", addr)
+		if err != nil {
+			return nil, err
+		}
+		if localPort != 0 {
+			if err := conn.(*net.TCPConn).SetLinger(0); err != nil {
+				return nil, err
+			}
+		}
+		return conn, nil
+	})
 }
 
 func mintCert(cn string, ca *x509.Certificate, caKey *ecdsa.PrivateKey) (tls.Certificate, *x509.Certificate, *ecdsa.PrivateKey, error) {
@@ -72,15 +102,15 @@ func mintCert(cn string, ca *x509.Certificate, caKey *ecdsa.PrivateKey) (tls.Cer
 func c19Creds() ([]c19Cred, error) {
 	pool := x509.NewCertPool()
 	pool.AppendCertsFromPEM(resources.CACrt)
-	tlsDial := func(certs []tls.Certificate) func(string) (*grpc.ClientConn, error) {
-		return func(addr string) (*grpc.ClientConn, error) {
+	tlsDial := func(certs []tls.Certificate) func(string, int) (*grpc.ClientConn, error) {
+		return func(addr string, localPort int) (*grpc.ClientConn, error) {
 			cfg := &tls.Config{RootCAs: pool, ServerName: "signer-test01", MinVersion: tls.VersionTLS13}
 			if len(certs) > 0 {
 				// Present the certificate whatever authorities the server says it accepts (a hostile client would).
 				c := certs[0]
 				cfg.GetClientCertificate = func(*tls.CertificateRequestInfo) (*tls.Certificate, error) { return &c, nil }
 			}
-			return grpc.NewClient(addr, grpc.WithTransportCredentials(credentials.NewTLS(cfg)))
+			return grpc.NewClient("passthrough:///"+addr, grpc.WithTransportCredentials(credentials.NewTLS(cfg)), c19Dialer(localPort))
 		}
 	}
 	selfSigned, _, _, err := mintCert("client-test01", nil, nil)
@@ -134,8 +164,8 @@ func c19Creds() ([]c19Cred, error) {
 		{Name: "valid client-test02 followed by an unverified non-CA certificate CN=client-test01", Valid: true, CN: "client-test02", Dial: tlsDial(trailing("client-test01", false))},
 		{Name: "valid client-test02 followed by an unverified CA-flagged certificate CN=client-test01", Valid: true, CN: "client-test02", Dial: tlsDial(trailing("client-test01", true))},
 		{Name: "valid client-test02 followed by an unverified certificate CN=signer-test02", Valid: true, CN: "client-test02", Dial: tlsDial(trailing("signer-test02", false))},
-		{Name: "plaintext (no TLS)", Dial: func(addr string) (*grpc.ClientConn, error) {
-			return grpc.NewClient(addr, grpc.WithTransportCredentials(insecure.NewCredentials()))
+		{Name: "plaintext (no TLS)", Dial: func(addr string, localPort int) (*grpc.ClientConn, error) {
+			return grpc.NewClient("passthrough:///"+addr, grpc.WithTransportCredentials(insecure.NewCredentials()), c19Dialer(localPort))
 		}},
 		{Name: "TLS without client certificate", Dial: tlsDial(nil)},
 		{Name: "self-signed certificate CN=client-test01", Dial: tlsDial([]tls.Certificate{selfSigned})},
@@ -393,8 +423,81 @@ func C19(tier string) int {
 	if tier == "thorough" {
 		wallets = append(wallets, "Wallet 3", "Unknown wallet")
 	}
+	// cell makes one call on an established connection and judges the reply by the credential the connection was made
+	// with; history is the text describing what the same source address was used for before ("" = nothing).
+	abort := fmt.Errorf("transport failure")
+	cell := func(cr c19Cred, cc *grpc.ClientConn, m c19Method, w, history string) error {
+		seq++
+		before := srv.stateDigest()
+		var rep c19Reply
+		for attempt := 0; attempt < 3; attempt++ {
+			ctx, cancel := context.WithTimeout(context.Background(), 20*time.Second)
+			rep = m.Call(ctx, cc, w, seq)
+			cancel()
+			if !(cr.Valid && strings.Contains(rep.Err, "Unavailable")) {
+				break
+			}
+			time.Sleep(200 * time.Millisecond)
+		}
+		after := srv.stateDigest()
+		cells++
+		rp := map[string]any{"check": "C19", "credential": cr.Name, "method": m.Name, "wallet": w}
+		hk, ht := "", ""
+		if history != "" {
+			rp["same_source_address_used_before_by"] = history
+			hk, ht = ":after:"+history, fmt.Sprintf(" (the connection comes from a source address that %s had used and closed before)", history)
+		}
+		yielded := rep.Signature || rep.Accounts > 0 || rep.KeyGen || rep.Accepted
+		cls := fmt.Sprintf("%s|%s|yielded=%v|changed=%v", cr.Name, m.Name, yielded, before != after)
+		if history != "" {
+			cls += "|reused-address"
+		}
+		classes[cls]++
+		if cells%23 == 1 {
+			samples.Add(map[string]any{"credential": cr.Name, "method": m.Name, "wallet": w, "reply": rep, "history": history})
+		}
+		if !cr.Valid {
+			if yielded {
+				run.Violate(fmt.Sprintf("served-without-certificate:%s:%s%s", cr.Name, m.Name, hk),
+					fmt.Sprintf("%s to a caller with %s yielded %+v%s", m.Name, cr.Name, rep, ht), rp)
+			}
+			if before != after {
+				run.Violate(fmt.Sprintf("state-changed-without-certificate:%s:%s%s", cr.Name, m.Name, hk),
+					fmt.Sprintf("%s from a caller with %s changed the instance's state%s", m.Name, cr.Name, ht), rp)
+			}
+			return nil
+		}
+		if strings.Contains(rep.Err, "Unavailable") || strings.Contains(rep.Err, "DeadlineExceeded") {
+			run.HarnessErr = fmt.Errorf("transport failure for a valid credential (%s, %s%s): %s", cr.Name, m.Name, ht, rep.Err)
+			return abort
+		}
+		// Valid certificates: the identity used is the subject name of the certificate.
+		if m.Op != "" {
+			permitted := !cr.IsPeer && c19Permitted(cr.CN, w)
+			if yielded && !permitted {
+				run.Violate(fmt.Sprintf("served-against-permissions:%s:%s:%s%s", cr.CN, m.Name, w, hk),
+					fmt.Sprintf("%s on %s for certificate subject %s yielded %+v although that subject has no permission there%s", m.Name, w, cr.CN, rep, ht), rp)
+			}
+			if !yielded && before != after {
+				run.Violate(fmt.Sprintf("refused-changed-state:%s:%s:%s%s", cr.CN, m.Name, w, hk), fmt.Sprintf("refused %s on %s for %s changed state%s", m.Name, w, cr.CN, ht), rp)
+			}
+			if permitted && !yielded && m.Name != "AccountManager.Unlock" && m.Name != "WalletManager.Lock" && m.Name != "WalletManager.Unlock" && w != "Unknown wallet" && w != "Wallet 3" {
+				// Not demanded by the statement (which is one-directional); recorded for the vacuity report only.
+				classes["valid-and-permitted-but-nothing-yielded:"+m.Name]++
+			}
+		} else {
+			// Key-generation messages: only peers may speak them.
+			if rep.Accepted && !cr.IsPeer {
+				run.Violate(fmt.Sprintf("dkg-from-client:%s:%s%s", cr.CN, m.Name, hk), fmt.Sprintf("%s from certificate subject %s (a client, not a peer) was acted on%s", m.Name, cr.CN, ht), rp)
+			}
+			if cr.IsPeer && m.Name == "DKG.Prepare" && !rep.Accepted {
+				classes["peer-prepare-refused"]++
+			}
+		}
+		return nil
+	}
 	for _, cr := range creds {
-		cc, err := cr.Dial(srv.addr)
+		cc, err := cr.Dial(srv.addr, 0)
 		if err != nil {
 			run.HarnessErr = err
 			return run.Finish()
@@ -404,78 +507,92 @@ func C19(tier string) int {
 				if m.Op == "" && w != wallets[0] {
 					continue
 				}
-				seq++
-				before := srv.stateDigest()
-				var rep c19Reply
-				for attempt := 0; attempt < 3; attempt++ {
-					ctx, cancel := context.WithTimeout(context.Background(), 20*time.Second)
-					rep = m.Call(ctx, cc, w, seq)
-					cancel()
-					if !(cr.Valid && strings.Contains(rep.Err, "Unavailable")) {
-						break
-					}
-					time.Sleep(200 * time.Millisecond)
-				}
-				after := srv.stateDigest()
-				cells++
-				rp := map[string]any{"check": "C19", "credential": cr.Name, "method": m.Name, "wallet": w}
-				yielded := rep.Signature || rep.Accounts > 0 || rep.KeyGen || rep.Accepted
-				cls := fmt.Sprintf("%s|%s|yielded=%v|changed=%v", cr.Name, m.Name, yielded, before != after)
-				classes[cls]++
-				if cells%23 == 1 {
-					samples.Add(map[string]any{"credential": cr.Name, "method": m.Name, "wallet": w, "reply": rep})
-				}
-				if !cr.Valid {
-					if yielded {
-						run.Violate(fmt.Sprintf("served-without-certificate:%s:%s", cr.Name, m.Name),
-							fmt.Sprintf("%s to a caller with %s yielded %+v", m.Name, cr.Name, rep), rp)
-					}
-					if before != after {
-						run.Violate(fmt.Sprintf("state-changed-without-certificate:%s:%s", cr.Name, m.Name),
-							fmt.Sprintf("%s from a caller with %s changed the instance's state", m.Name, cr.Name), rp)
-					}
-					continue
-				}
-				if strings.Contains(rep.Err, "Unavailable") || strings.Contains(rep.Err, "DeadlineExceeded") {
-					run.HarnessErr = fmt.Errorf("transport failure for a valid credential (%s, %s): %s", cr.Name, m.Name, rep.Err)
+				if cell(cr, cc, m, w, "") != nil {
 					return run.Finish()
-				}
-				// Valid certificates: the identity used is the subject name of the certificate.
-				if m.Op != "" {
-					permitted := !cr.IsPeer && c19Permitted(cr.CN, w)
-					if yielded && !permitted {
-						run.Violate(fmt.Sprintf("served-against-permissions:%s:%s:%s", cr.CN, m.Name, w),
-							fmt.Sprintf("%s on %s for certificate subject %s yielded %+v although that subject has no permission there", m.Name, w, cr.CN, rep), rp)
-					}
-					if !yielded && before != after {
-						run.Violate(fmt.Sprintf("refused-changed-state:%s:%s:%s", cr.CN, m.Name, w), fmt.Sprintf("refused %s on %s for %s changed state", m.Name, w, cr.CN), rp)
-					}
-					if permitted && !yielded && m.Name != "AccountManager.Unlock" && m.Name != "WalletManager.Lock" && m.Name != "WalletManager.Unlock" && w != "Unknown wallet" && w != "Wallet 3" {
-						// Not demanded by the statement (which is one-directional); recorded for the vacuity report only.
-						classes["valid-and-permitted-but-nothing-yielded:"+m.Name]++
-					}
-				} else {
-					// Key-generation messages: only peers may speak them.
-					if rep.Accepted && !cr.IsPeer {
-						run.Violate(fmt.Sprintf("dkg-from-client:%s:%s", cr.CN, m.Name), fmt.Sprintf("%s from certificate subject %s (a client, not a peer) was acted on", m.Name, cr.CN), rp)
-					}
-					if cr.IsPeer && m.Name == "DKG.Prepare" && !rep.Accepted {
-						classes["peer-prepare-refused"]++
-					}
 				}
 			}
 		}
 		cc.Close()
 	}
+	// Histories of two connections: a caller connects from a source address that another caller used before. Whatever
+	// the server remembers about the first must not be applied to the second.
+	pick := func(name string) c19Cred {
+		for _, c := range creds {
+			if c.Name == name {
+				return c
+			}
+		}
+		panic(name)
+	}
+	seqCreds := []c19Cred{pick("valid client-test01"), pick("valid client-test02"), pick("valid signer-test02 (a peer)"),
+		pick("TLS without client certificate"), pick("self-signed certificate CN=client-test01"), pick("plaintext (no TLS)")}
+	var seqMethods []c19Method
+	for _, m := range methods {
+		switch m.Name {
+		case "Lister.ListAccounts", "Signer.Sign", "Signer.SignBeaconAttestations", "DKG.Abort", "DKG.Prepare":
+			seqMethods = append(seqMethods, m)
+		}
+	}
+	pairs := 0
+	firsts, seconds := seqCreds, seqCreds
+	if tier == "thorough" {
+		firsts, seconds, seqMethods = creds, creds, methods
+	}
+	for _, first := range firsts {
+		if !first.Valid && tier != "thorough" {
+			continue // an unauthenticated first caller leaves nothing to remember; explored in the thorough tier only
+		}
+		for _, second := range seconds {
+			for _, warm := range []string{"Lister.ListAccounts", "DKG.Abort"} {
+				port, err := freePort()
+				if err != nil {
+					run.HarnessErr = err
+					return run.Finish()
+				}
+				cc1, err := first.Dial(srv.addr, port)
+				if err != nil {
+					run.HarnessErr = err
+					return run.Finish()
+				}
+				for _, m := range methods {
+					if m.Name == warm {
+						if cell(first, cc1, m, "Wallet 1", "") != nil {
+							return run.Finish()
+						}
+					}
+				}
+				cc1.Close()
+				var cc2 *grpc.ClientConn
+				cc2, err = second.Dial(srv.addr, port)
+				if err != nil {
+					run.HarnessErr = err
+					return run.Finish()
+				}
+				for _, m := range seqMethods {
+					for _, w := range wallets[:2] {
+						if m.Op == "" && w != wallets[0] {
+							continue
+						}
+						if cell(second, cc2, m, w, first.Name+" for "+warm) != nil {
+							return run.Finish()
+						}
+					}
+				}
+				cc2.Close()
+				pairs++
+			}
+		}
+	}
 	// After everything the unauthenticated callers tried, a valid client can still sign at an epoch they tried.
 	run.Coverage = map[string]any{
 		"evaluations":         cells,
 		"distinct_nontrivial": len(classes),
-		"rule":                "a real API server (services/api/grpc with the repository's CA and server certificate) on loopback TCP; every one of the 16 RPC methods of the 5 registered services x every credential kind (plaintext, TLS without client certificate, self-signed CN=client-test01, certificate from a freshly generated other authority with and without its CA in the chain, valid client-test01/02/03, valid signer-test02) x wallets; unauthenticated kinds must yield no signature, account entry, key-generation reply or accepted protocol message and must not change the instance's state digest (all slashing records, lock states, account population, sessions); valid certificates are served according to the permissions of the certificate's subject name, clients cannot speak the key-generation protocol; distinct = (credential, method, yielded, changed) classes",
+		"rule":                "a real API server (services/api/grpc with the repository's CA and server certificate) on loopback TCP; every one of the 16 RPC methods of the 5 registered services x every credential kind (plaintext, TLS without client certificate, self-signed CN=client-test01, certificate from a freshly generated other authority with and without its CA in the chain, valid client-test01/02/03, valid signer-test02) x wallets; unauthenticated kinds must yield no signature, account entry, key-generation reply or accepted protocol message and must not change the instance's state digest (all slashing records, lock states, account population, sessions); valid certificates are served according to the permissions of the certificate's subject name, clients cannot speak the key-generation protocol; then every ordered pair of callers (quick: three valid subjects incl. the peer as first, those and three unauthenticated kinds as second, five methods; thorough: every credential kind in both roles and every method) where the second connects from the very source address (ip:port) the first one used for a call and closed, judged as if the first had never existed; distinct = (credential, method, yielded, changed) classes",
 		"samples":             samples.List(),
 		"exhaustive":          true,
 		"methods":             len(methods),
 		"credentials":         len(creds),
+		"address_reuse_pairs": pairs,
 		"cells":               cells,
 		"classes":             classes,
 	}
